@@ -88,3 +88,66 @@ func constInt64(k *types.Const) (int64, bool) {
 	}
 	return 0, false
 }
+
+// tagExcludedAt: at block b, value v is known NOT to have tag k (false edge of v.Type()==k or
+// true edge of v.Type()!=k).
+func (c *Ctx) tagExcludedAt(v ssa.Value, k int64, b *ssa.BasicBlock) bool {
+	for _, t := range c.typeCallsOn(v) {
+		for _, ref := range *t.Referrers() {
+			bin, ok := ref.(*ssa.BinOp)
+			if !ok || (bin.Op != token.EQL && bin.Op != token.NEQ) {
+				continue
+			}
+			var kk int64
+			var isK bool
+			if bin.X == t {
+				kk, isK = constInt(bin.Y)
+			} else {
+				kk, isK = constInt(bin.X)
+			}
+			if !isK || kk != k {
+				continue
+			}
+			for _, r2 := range *bin.Referrers() {
+				ifi, ok := r2.(*ssa.If)
+				if !ok {
+					continue
+				}
+				edge := 1
+				if bin.Op == token.NEQ {
+					edge = 0
+				}
+				if onEdge(ifi.Block(), edge, b) {
+					return true
+				}
+			}
+		}
+	}
+	// positive knowledge of other tags also excludes k
+	if tags, known := c.tagsAt(v, b); known && !tags[k] {
+		return true
+	}
+	return false
+}
+
+// controlling lists the (If block, edge) pairs whose edge block b is confined to.
+type ctrlCond struct {
+	If   *ssa.If
+	Edge int // 0 true, 1 false
+}
+
+func controlling(b *ssa.BasicBlock) []ctrlCond {
+	var res []ctrlCond
+	for _, ib := range b.Parent().Blocks {
+		ifi, ok := ib.Instrs[len(ib.Instrs)-1].(*ssa.If)
+		if !ok {
+			continue
+		}
+		for e := 0; e < 2; e++ {
+			if onEdge(ib, e, b) {
+				res = append(res, ctrlCond{ifi, e})
+			}
+		}
+	}
+	return res
+}
